@@ -29,7 +29,7 @@ pub fn gen_input(r: &mut Rng) -> String {
         5..=14 => 3 + r.below(8),
         _ => 10 + r.below(7),
     };
-    if r.chance(1, 12) {
+    if r.chance(1, 8) {
         // a longer, mostly ASCII line with punctuation (keywords and identifiers of 8+ bytes)
         let n = 12 + r.below(24);
         let mut s = String::new();
@@ -67,7 +67,15 @@ pub fn gen_input(r: &mut Rng) -> String {
 fn flip_case(s: &str, r: &mut Rng) -> String {
     // sometimes one non-letter ASCII character gets its 0x20 bit flipped: no longer a match
     let n_chars = s.chars().count();
-    let flip_at = if n_chars > 0 && r.chance(1, 5) { Some(r.below(n_chars)) } else { None };
+    let non_letters: Vec<usize> = s.chars().enumerate().filter(|(_, c)| c.is_ascii() && !c.is_ascii_alphabetic()).map(|(i, _)| i).collect();
+    let flip_at = if n_chars >= 8 && !non_letters.is_empty() && r.chance(1, 2) {
+        // long literals (compared a machine word at a time, if at all): aim at a non-letter
+        Some(non_letters[r.below(non_letters.len())])
+    } else if n_chars > 0 && r.chance(1, 5) {
+        Some(r.below(n_chars))
+    } else {
+        None
+    };
     s.chars()
         .enumerate()
         .map(|(i, c)| {
